@@ -555,6 +555,8 @@ def run(ctx):
     # integers (shared with C07.R7 - a narrowing of the bit count there makes a large declared length cheaper than declared)
     from .C07 import r7_busy_formula
     r7_busy_formula(ctx, rule='C16.R8')
+    from .C07 import r3_byte_accounting
+    r3_byte_accounting(ctx, rule='C16.R8')   # ... and queues are charged and un-charged with that very length
     r7_set_content_and_clone(ctx)
     r1_guarded_reinterpretation(ctx)
     r2_vtables(ctx)
